@@ -221,7 +221,7 @@ def coq_eval_sharded(defs_common, case_terms, checker, imports, shard=400, jobs=
                 "  match l with [] => [] | c :: l' => (match chk c with O => [] | k => [(i, k)] end) ++ bad_idx__ chk (S i) l' end.",
                 f"Definition chk__ := {checker}.",
                 "Definition chkn__ := ltac:(first [ exact (fun c => code_of_nat__ (chk__ c)) | exact (fun c => code_of_bool__ (chk__ c)) ]).",
-                "Eval vm_compute in (length cases__, bad_idx__ chkn__ 0 cases__)."]
+                "Eval vm_compute in (List.length cases__, bad_idx__ chkn__ 0 cases__)."]
         out = coq_eval("\n".join(body), name=f"{name}_{k}", imports=imports)
         vals = parse_evals(out)
         if not vals:
